@@ -126,11 +126,22 @@ impl Prop for C09 {
             // (a)
             for (cfg, o) in [(&lf, &o_lf), (&cr, &o_cr)] {
                 if let Some((at, d)) = check_emitted(&input, o, cfg.crlf, cfg.format_multiline_strings) {
-                    out.violate("C09", if fallback { "wrap-fallback" } else { "wrong-terminator" }, format!("{kind} [{}] {d} (…{:?}…)", cfg.short(), excerpt(o, at, 30)), &input, Some(cfg));
+                    let class = if fallback {
+                        "wrap-fallback"
+                    } else if wf::lone_cr_after_line_bound_token(&input) {
+                        "lone-cr-line-break"
+                    } else {
+                        "wrong-terminator"
+                    };
+                    out.violate("C09", class, format!("{kind} [{}] {d} (…{:?}…)", cfg.short(), excerpt(o, at, 30)), &input, Some(cfg));
                 }
             }
             // (b) substitution: compare with CRLF folded to LF on both sides
-            if o_lf.replace("\r\n", "\n") != o_cr.replace("\r\n", "\n") {
+            // (verbatim line-spanning tokens that themselves contain CRs cannot be compared by folding)
+            let verbatim_cr = input.contains('\r') && has_verbatim_multiline(&input, base.format_multiline_strings);
+            if verbatim_cr {
+                out.count("lf_crlf_comparison_skipped_verbatim_cr");
+            } else if o_lf.replace("\r\n", "\n") != o_cr.replace("\r\n", "\n") {
                 out.violate("C09", if fallback { "wrap-fallback" } else { "lf-crlf-results-differ" }, format!("{kind} [{}] results under lf and crlf differ beyond the terminators", base.short()), &input, Some(&base));
             }
             // (c) input endings irrelevant
